@@ -4,7 +4,7 @@ from __future__ import annotations
 import random
 
 from . import qprops
-from .codec import plain
+from .codec import opt, plain
 from .core import Plugin
 
 SAFE = "abcdefghijklmnopqrstuvwxyzABCDEFGHIJKLMNOPQRSTUVWXYZ0123456789-._~"
@@ -68,8 +68,16 @@ class C17(Plugin):
         from curies.resolver_service import get_fastapi_app, get_flask_app
         from fastapi.testclient import TestClient
 
-        recs, d, paths = case
+        recs, d, paths = case[:3]
         c = curies.Converter(qprops.mk_records(recs), delimiter=d)
+        # "redirects to the result of converter.expand": the implementation's own expand answers travel with the case
+        expands = []
+        for p in paths:
+            try:
+                expands.append(opt(c.expand(p)))
+            except Exception:
+                expands.append(None)
+        case = [recs, d, paths, expands]
         fl = get_flask_app(c).test_client()
         fa = TestClient(get_fastapi_app(c))
         rows = []
@@ -81,7 +89,7 @@ class C17(Plugin):
         return case, rows
 
     def nontrivial(self, case, obs):
-        recs, d, paths = case
+        recs, d, paths = case[:3]
         return any("/" in p.partition(d)[2] or d in p.partition(d)[2] for p in paths)
 
     def stats(self, case, obs, acc):
